@@ -350,7 +350,9 @@ func ruleC13_3(c *Ctx) {
 	// strip prefix only when the path has it; at most one prefix
 	if finalStore != nil {
 		ko := org(finalStore.Key)
-		c.check(ko == "phi(p0|strings.TrimPrefix(p0,fv:lStripPaths[*]))", R, fn, "stored name = path with (at most) one configured prefix stripped", finalStore.Pos(), ko, "stored name is "+short(ko))
+		isPrefixes := func(v ssa.Value) bool { return org(v) == "fv:lStripPaths" }
+		okName := c.stripShape(resolve(finalStore.Key, finalStore), ssa.Value(cb.Params[0]), isPrefixes, 0)
+		c.check(okName, R, fn, "stored name = path with (at most) one configured prefix stripped", finalStore.Pos(), ko, "stored name is "+short(ko))
 	}
 	// (vii) ToSlash
 	if pub := c.lookup("in_toto.RecordArtifacts"); pub != nil {
@@ -665,4 +667,70 @@ func derivesConstBytes(v ssa.Value) string {
 		return false
 	}, false)
 	return out
+}
+
+// stripShape: v is the walked path itself, or strings.TrimPrefix(path, e) for an element e of the strip-prefix list at
+// a place where strings.HasPrefix(path, e) is known — never a strip of an already stripped name — or a phi of such
+// values, or the result of an unexported helper h(path, prefixes) all of whose returns have that shape.
+func (c *Ctx) stripShape(v ssa.Value, path ssa.Value, isPrefixes func(ssa.Value) bool, depth int) bool {
+	if depth > 6 {
+		return false
+	}
+	if v == path {
+		return true
+	}
+	switch x := v.(type) {
+	case *ssa.Phi:
+		for _, e := range x.Edges {
+			if !c.stripShape(e, path, isPrefixes, depth+1) {
+				return false
+			}
+		}
+		return len(x.Edges) > 0
+	case *ssa.Call:
+		switch calleeName(x) {
+		case "strings.TrimPrefix":
+			if resolve(x.Call.Args[0], x) != path {
+				return false
+			}
+			el := x.Call.Args[1]
+			fromList := derives(el, func(y ssa.Value) bool { return isPrefixes(y) }, false)
+			if !fromList {
+				return false
+			}
+			// guarded by HasPrefix(path, same element)
+			for _, hp := range callsIn(x.Parent(), "strings.HasPrefix") {
+				a := hp.Common().Args
+				if resolve(a[0], hp) == path && resolve(a[1], hp) == resolve(el, x) && c.condAt(hp.Value(), true, x.Block()) {
+					return true
+				}
+			}
+			return false
+		default:
+			g := x.Call.StaticCallee()
+			if !c.isStageHelper(g) || len(g.Params) < 2 {
+				return false
+			}
+			// which parameters receive the path and the prefix list?
+			pi, li := -1, -1
+			for i, a := range x.Call.Args {
+				if resolve(a, x) == path {
+					pi = i
+				}
+				if isPrefixes(resolve(a, x)) || isPrefixes(a) {
+					li = i
+				}
+			}
+			if pi < 0 || li < 0 {
+				return false
+			}
+			for _, r := range returnsOf(g) {
+				if !c.stripShape(resolve(r.Results[0], r), ssa.Value(g.Params[pi]), func(y ssa.Value) bool { return y == ssa.Value(g.Params[li]) }, depth+1) {
+					return false
+				}
+			}
+			return true
+		}
+	}
+	return false
 }
